@@ -113,5 +113,20 @@ func New(r io.Reader) *Parser {
 	fsc := NewFieldParser("")
 	fsc.RemoveBOM(true)
 
+	// The BOM may only be removed at the very start of the stream. splitFunc skips
+	// blank lines before an event, so if the first token doesn't start where the
+	// stream starts a BOM at its beginning is ordinary content.
+	firstToken := true
+	sc.Split(func(data []byte, atEOF bool) (int, []byte, error) {
+		advance, token, err := splitFunc(data, atEOF)
+		if firstToken && token != nil {
+			firstToken = false
+			if len(token) < advance {
+				fsc.RemoveBOM(false)
+			}
+		}
+		return advance, token, err
+	})
+
 	return &Parser{inputScanner: sc, fieldScanner: fsc}
 }
